@@ -140,7 +140,28 @@ def run(ctx):
         checked += 1
         if (ra['result'], ra['stdout']) != (rb['result'], rb['stdout']):
             v = viol(a, '(parse_selection "e") evaluates as e on every row', ra['result'] + ' ' + ra['stdout'].decode('utf8', 'replace')[:300], rb['stdout'].decode('utf8', 'replace')[:300]); violations.append(v)
-    cov = {'evaluations': len(cases) + len(corpus) + len(docs) + len(pscases), 'distinct_nontrivial': common.nontrivial_count(cases + corpus, impl),
+    # parse_time is not modelled; its documentation says "seconds since epoch": an independent computation (Python datetime, naive
+    # = UTC) for the numeric formats, down to the microsecond, before and after 1970
+    import datetime
+    tcases = []; tmeta = []
+    ep = datetime.datetime(1970, 1, 1)
+    for i in range(40 if ctx['tier'] == 'quick' else 2000):
+        dt = datetime.datetime(rnd.choice([1969, 1970, 1970, 1999, 2000, 2024, 2038, 2100, 1900]), rnd.randint(1, 12), rnd.randint(1, 28), rnd.randint(0, 23), rnd.randint(0, 59), rnd.randint(0, 59),
+                               rnd.choice([0, 0, 1, 250, 1000, 360000, 500000, 999999, 123456]))
+        if i == 0: dt = datetime.datetime(1970, 1, 1, 0, 0, 1, 250)
+        frac = ('.%06d' % dt.microsecond).rstrip('0').rstrip('.') if rnd.random() < 0.7 else '.%06d' % dt.microsecond
+        txt = dt.strftime('%Y-%m-%d %H:%M:%S') + frac
+        micros = (dt - ep).days * 86400 * 10 ** 6 + (dt - ep).seconds * 10 ** 6 + (dt - ep).microseconds
+        c = mkcase('TM%d' % i, lib.new_cfg(select=['(parse_time "%s" "%%Y-%%m-%%d %%H:%%M:%%S%%.f")=x' % txt]), b'null'); tcases.append(c); tmeta.append((c, micros / 1000000.0, txt))
+    timpl = lib.run_harness(tcases)
+    for c, expv, txt in tmeta:
+        a = timpl[c['id']]
+        if a['result'] != 'ok': violations.append(viol(c, 'parse_time evaluates', a['result'] + ' ' + a['msg'], str(expv))); continue
+        row = json.loads(rows(a['stdout'])[0]) if rows(a['stdout']) else {}
+        checked += 1
+        if 'x' not in row or float(row['x']) != expv:
+            violations.append(viol(c, 'parse_time: seconds since the epoch of %s, to the microsecond' % txt, json.dumps(row.get('x', 'nothing')), repr(expv)))
+    cov = {'evaluations': len(cases) + len(corpus) + len(docs) + len(pscases) + len(tcases), 'distinct_nontrivial': common.nontrivial_count(cases + corpus, impl),
            'rule': 'random expressions of depth <= 5 over the modelled functions with random aliases, comma/space separators and the leading-dot sugar x inputs of all six types; the curated corpora of the function models; the %d documentation examples harvested from the source (run on the implementation against their documented output)' % len(docs),
            'samples': [common.describe(c) for c in cases[:3]], 'function_usage': g.usage,
            'functions_exercised': len(g.usage),
